@@ -311,7 +311,143 @@ def m6_block_transactions_reply_guards(S):
                     S.witness(ctx, ob, f"{tag}_reach_accept", allp, acc)
 
 
-OBLIGATIONS = [m1_extension_accessors, m2_frame_guard, m3_molecule_accessors, m4_discovery_decode_uses_verified_readers, m5_prefilled_indexes, m6_block_transactions_reply_guards]
+def m7_reconstruct_block_uncles(S):
+    """`Relayer::reconstruct_block` (async fn; its coroutine body is executed): compact block with every transaction prefilled (one prefilled transaction, no short ids -- the
+    transaction-matching half with its hash containers is outside this obligation) and ONE uncle hash.  For every block status of that uncle, whether it was requested from the peer,
+    whether the store / orphan pool still has it, extension present or not, and equal / different transaction roots: the result is `Block` only if the uncle was placed -- the
+    received one when requested, else the stored / orphan-pool block with that hash -- and the reconstructed transactions root equals the header's; an uncle that cannot be
+    placed is REPORTED as missing (index 0), never dropped; an invalid uncle is an error; the block is built from the compact block's header and proposals, the prefilled
+    transaction and exactly that uncle."""
+    from mir2smt.exec import CoroV, ListV
+    ob = "C16.m7"
+    c = [f for f in S.prog.funcs if f.kind == "fn" and re.search(r"::reconstruct_block::\{closure#0\}$", f.name) and len(f.params) == 2 and "Context" in f.params[1][1]]
+    if len(c) != 1:
+        raise Inconclusive(f"reconstruct_block coroutine: {len(c)} candidates")
+    f = c[0]
+    ix = {}
+    for name, place in f.debug.items():
+        m = re.match(r"\(\(\*\(_1\.0: .*?\)\)\.(\d+): ", place)
+        if m:
+            ix[name] = int(m.group(1))
+    need = ["self", "active_chain", "compact_block", "received_transactions", "uncles_index", "received_uncles"]
+    if any(n not in ix for n in need):
+        raise Inconclusive(f"reconstruct_block upvars: {ix}")
+    # status constants from the source
+    src = open(os.path.join(os.environ.get("VERIF_REPO", "/repo"), "shared/src/block_status.rs")).read()
+    consts = {}
+    for name, expr in re.findall(r"const (\w+)\s*=\s*([^;]+);", src):
+        e = re.sub(r"Self::(\w+)\.bits\(\)", lambda m_: str(consts[m_.group(1)]), expr)
+        consts[name] = eval(e, {"__builtins__": {}})
+    for requested in (False, True):
+        ctx = S.ctx(unwind=8)
+        ctx.uninterpreted_unknown_calls = True
+        ctx.max_paths = 600
+        stored = ctx.bool("uncle_block_is_in_the_store"); pooled = ctx.bool("uncle_block_is_in_the_orphan_pool")
+        has_ext = ctx.bool("compact_block_has_extension"); roots_differ = ctx.bool("reconstructed_tx_root_differs_from_header")
+        sets = []
+
+        def nmv(ex, v):
+            v = deref(ex, v)
+            if isinstance(v, ListV):
+                return "[" + ",".join(nmv(ex, x) for x in v.items) + "]"
+            return getattr(v, "name", None) or type(v).__name__
+        call = lambda tag: (lambda ex, c_, a, d: OpaqueV(tag + "(" + ",".join(nmv(ex, x) for x in a) + ")", d))
+
+        def setter(ex, c_, a, d):
+            nm_ = re.sub(r"::<[^<>]*>$", "", c_)
+            sets.append((nm_.split("::")[-2], nm_.split("::")[-1], nmv(ex, a[1]), list(ex.pc)))
+            ex.log.append(("set", c_, [nm_.split("::")[-1], nmv(ex, a[1])], list(ex.pc)))
+            return OpaqueV(nmv(ex, a[0]), d)
+        from mir2smt.exec import ENV_PASS as _PASS
+        ctx.env = list(E.LOGGING_OFF) + [
+            (E.rx(r"CompactBlock::calc_header_hash$"), call("hash")),
+            (E.rx(r"CompactBlock::(short_ids|prefilled_transactions|uncles|proposals|header)$"), lambda ex, c_, a, d: OpaqueV(c_.split("::")[-1] + "(cb)", d)),
+            (E.rx(r"CompactBlock::txs_len$"), lambda ex, c_, a, d: IntV(1, "usize")),
+            (E.rx(r"::extension$"), lambda ex, c_, a, d: mk_option(has_ext.t, OpaqueV("ext(cb)", "Bytes"), d)),
+            (E.rx(r"ProposalShortIdVec as IntoIterator>::into_iter$"), lambda ex, c_, a, d: E.list_source([])(ex, c_, a, d)),
+            (E.rx(r"ProposalShortIdVec::(is_empty|len)$"), lambda ex, c_, a, d: BoolV(True) if c_.endswith("is_empty") else IntV(0, "usize")),
+            (E.rx(r"IndexTransactionVec as IntoIterator>::into_iter$"), lambda ex, c_, a, d: E.list_source([OpaqueV("prefilled0", "IndexTransaction")])(ex, c_, a, d)),
+            (E.rx(r"Byte32Vec as IntoIterator>::into_iter$"), lambda ex, c_, a, d: E.list_source([OpaqueV("uncle_hash0", "Byte32")])(ex, c_, a, d)),
+            (E.rx(r"Byte32Vec::len$"), lambda ex, c_, a, d: IntV(1, "usize")),
+            (E.rx(r"as Iterator>::collect::<.*Hash(Set|Map)<"), lambda ex, c_, a, d: ListV(tuple(E._rest(ex, deref(ex, a[0]))), "hashed") if E._is_it(deref(ex, a[0])) else _PASS),
+            (E.rx(r"HashSet::<.*ProposalShortId.*>::is_empty$"), lambda ex, c_, a, d: BoolV(len(deref(ex, a[0]).items) == 0)),
+            (E.rx(r"HashMap::<.*ProposalShortId, .*TransactionView.*>::remove"), lambda ex, c_, a, d: mk_option(False, None, d)),
+            (E.rx(r"IndexTransaction::index$"), call("index")),
+            (E.rx(r"<Uint32 as Into<usize>>::into$"), lambda ex, c_, a, d: IntV(0, "usize")),
+            (E.rx(r"IndexTransaction::transaction$"), call("tx")),
+            (E.rx(r"as IntoTransactionView>::into_view$|Transaction::into_view$"), call("view")),
+            (E.rx(r"TransactionView::data$"), call("data")),
+            (E.rx(r"UncleBlockView::data$"), call("data")),
+            (E.rx(r"UncleBlockView as Clone>::clone$"), lambda ex, c_, a, d: deref(ex, a[0])),
+            (E.rx(r"ActiveChain::get_block_status$"), lambda ex, c_, a, d: OpaqueV("status", d)),
+            (E.rx(r"ActiveChain::get_block$"), lambda ex, c_, a, d: mk_option(stored.t, OpaqueV("stored_block(" + nmv(ex, a[1]) + ")", "BlockView"), d)),
+            (E.rx(r"ChainController::get_orphan_block$"), lambda ex, c_, a, d: mk_option(pooled.t, OpaqueV("orphan_block(" + nmv(ex, a[2]) + ")", "Arc<BlockView>"), d)),
+            (E.rx(r"BlockView::as_uncle$"), call("as_uncle")),
+            (E.rx(r"as Deref>::deref$"), lambda ex, c_, a, d: ex.ctx.ref_to(OpaqueV(nmv(ex, a[0]), "?"))),
+            (E.rx(r"Relayer::shared$|SyncShared::(store|shared)$"), E.opaque_call()),
+            (E.rx(r"Block(V1)?Builder::(header|uncles|transactions|proposals|extension)(::<.*>)?$"), setter),
+            (E.rx(r"::new_builder$"), lambda ex, c_, a, d: OpaqueV("builder:" + d.split("::")[-1], d)),
+            (E.rx(r"Builder>?::build$|::as_v0$"), lambda ex, c_, a, d: OpaqueV(nmv(ex, a[0]), d)),
+            (E.rx(r"as IntoBlockView>::into_view$|Block::into_view$"), lambda ex, c_, a, d: OpaqueV("rebuilt_block", d)),
+            (E.rx(r"RawHeader::transactions_root$|BlockView::transactions_root$|Header::raw$"), call("root")),
+            (E.rx(r"Byte32 as PartialEq>::(ne|eq)$"), lambda ex, c_, a, d: BoolV(roots_differ.t if c_.endswith("ne") else T.not_(roots_differ.t))),
+            (E.rx(r"StatusCode::with_context::<"), lambda ex, c_, a, d: OpaqueV("error_status", d)),
+            (E.rx(r"fmt::|format"), E.opaque_call()),
+        ] + list(E.LIST_ADAPTORS)
+        ups = {ix["self"]: ctx.ref_to(OpaqueV("relayer", "Relayer")), ix["active_chain"]: ctx.ref_to(OpaqueV("active_chain", "ActiveChain")),
+               ix["compact_block"]: ctx.ref_to(OpaqueV("cb", "CompactBlock")), ix["received_transactions"]: ListV((), "Vec<TransactionView>"),
+               ix["uncles_index"]: ctx.ref_to(ListV((IntV(0, "u32"),) if requested else (), "[u32]")),
+               ix["received_uncles"]: ctx.ref_to(ListV((OpaqueV("received_uncle0", "UncleBlockView"),) if requested else (), "[UncleBlockView]"))}
+        coro = CoroV(0, tuple(sorted(ups.items())), (), "coroutine")
+        ps = S.run(ctx, f, [AggV((ctx.ref_to(coro),), "Pin"), ctx.ref_to(OpaqueV("task_context", "Context"))])
+        tag = "uncle_requested_from_the_peer" if requested else "uncle_not_requested"
+        S.prove(ctx, ob, f"{tag}_no_panic", [], T.not_(cond_of(panics(ps))))
+        rs = returns(ps)
+        ready = [p for p in rs if isinstance(p.value, EnumV) and p.value.disc == 0]
+        S.prove(ctx, ob, f"{tag}_completes_without_suspending", [], bool(ready and len(ready) == len(rs)))
+        rv = struct_variants = ["Block", "Missing", "Collided", "Error"]
+        st = T.var([n for n in ctx.decls if re.fullmatch(r"status(\.\d+)+", n)][0]) if [n for n in ctx.decls if re.fullmatch(r"status(\.\d+)+", n)] else None
+        if st is None and not requested:
+            raise Inconclusive("the uncle's block status is never inspected")
+        def kind(p):
+            v = p.value.payload(0)[0]
+            return v.disc if isinstance(v, EnumV) else None
+        is_block = T.or_(*[p.cond() for p in ready if kind(p) == 0])
+        is_missing = T.or_(*[p.cond() for p in ready if kind(p) == 1])
+        is_error = T.or_(*[p.cond() for p in ready if kind(p) == 3])
+        S.prove(ctx, ob, f"{tag}_result_is_one_of_the_declared_outcomes", [], bool(all(kind(p) in (0, 1, 2, 3) for p in ready)))
+        if requested:
+            placeable = True
+            want_uncle = lambda pc: "[data(received_uncle0)]"
+        else:
+            is_stored = T.or_(T.eq(st, consts["BLOCK_STORED"]), T.eq(st, consts["BLOCK_VALID"]))
+            is_recv = T.eq(st, consts["BLOCK_RECEIVED"])
+            invalid = T.eq(st, consts["BLOCK_INVALID"])
+            placeable = T.or_(T.and_(is_stored, stored.t), T.and_(is_recv, pooled.t))
+            S.prove(ctx, ob, f"{tag}_invalid_uncle_is_an_error", [invalid], T.and_(is_error, T.not_(is_block)))
+            S.prove(ctx, ob, f"{tag}_an_uncle_that_cannot_be_placed_is_reported_missing_never_dropped", [T.not_(placeable), T.not_(invalid)], T.and_(is_missing, T.not_(is_block)))
+        S.prove(ctx, ob, f"{tag}_block_only_if_the_uncle_is_placed_and_the_roots_agree", [], T.implies(is_block, T.and_(placeable, T.not_(roots_differ.t))))
+        S.prove(ctx, ob, f"{tag}_block_whenever_the_uncle_is_placed_and_the_roots_agree", [placeable if placeable is not True else True, T.not_(roots_differ.t)], is_block)
+        # what the block is built from, and the missing report
+        bad_build, bad_missing = [], []
+        for p in ready:
+            if kind(p) == 0:
+                d_ = {e[2][0]: e[2][1] for e in p.log if e[0] == "set"}
+                ok_u = d_.get("uncles") in (("[data(received_uncle0)]",) if requested else ("[data(as_uncle(stored_block(uncle_hash0)))]", "[data(as_uncle(orphan_block(uncle_hash0)))]"))
+                ok = ok_u and d_.get("header") == "header(cb)" and d_.get("proposals") == "proposals(cb)" and d_.get("transactions") == "[data(view(tx(prefilled0)))]"
+                if not ok:
+                    bad_build.append(p.cond())
+            if kind(p) == 1:
+                v = p.value.payload(0)[0]
+                miss_tx, miss_un = v.payload(1)
+                if not (isinstance(miss_un, ListV) and [getattr(x, "t", None) for x in miss_un.items] == [0] and isinstance(miss_tx, ListV) and not miss_tx.items):
+                    bad_missing.append(p.cond())
+        S.prove(ctx, ob, f"{tag}_block_is_built_from_the_compact_blocks_header_proposals_prefilled_tx_and_that_uncle", [], T.not_(T.or_(*bad_build)) if bad_build else True)
+        S.prove(ctx, ob, f"{tag}_missing_report_names_exactly_uncle_0_and_no_transaction", [], T.not_(T.or_(*bad_missing)) if bad_missing else True)
+        S.witness(ctx, ob, f"{tag}_reach_block", [], is_block)
+
+
+OBLIGATIONS = [m1_extension_accessors, m2_frame_guard, m3_molecule_accessors, m4_discovery_decode_uses_verified_readers, m5_prefilled_indexes, m6_block_transactions_reply_guards, m7_reconstruct_block_uncles]
 
 _P = os.path.join(os.path.dirname(__file__), "..", "kani", "molecule", "gen_molecule.json")
 _OKFILE = os.path.join(os.path.dirname(__file__), "..", "kani", "molecule", "feasible.json")
